@@ -131,7 +131,7 @@ def check_objects(res, rng, t, reps):
     for pl_pts in ([(0, 2, 0), (-3, -3, -2), (-1, 3, 2)], [(1, 0, 0), (0, 1, 0), (0, 0, 1)], [(1, 0, 2), (0, 1, -1), (2, 2, 1)]):
         ptsd = [float(a) * t.e1 + float(b) * t.e2 + float(c) * t.e3 for a, b, c in pl_pts]
         Xa = build('plane', ptsd, t).normal()
-        Vd = t.generate_translation_rotor(1.0 * t.e1 + 1.0 * t.e2 - 3.0 * t.e3)
+        Vd = t.generate_translation_rotor(0.5 * t.e1 + 1.0 * t.e2 - 3.0 * t.e3)
         Xb = -(Vd * Xa * ~Vd).normal()
         if near(Xb, -Xa, 1.0, 1e-9):
             continue
